@@ -602,7 +602,9 @@ func ScenarioPlans(r *mrand.Rand, pool *Pool, n int) []*Plan {
 				op(OpDirectAdd, k), op(OpAddHard, c.ID), op(OpDirectAdd, x.ID), op(OpDirectRemove, k), sign(c.ID, 2), op(OpSigners, 0)}
 		case 4: // several out-of-window certificates next to each other in the agent's listing, others after them
 			p.Class = "scenario-adjacent-invalid"
-			bad := func() string { return core.Pick(r, "past", "future", "zero", "inverted", "one-second-ago", "va-2^63", "soon", "just-expired") }
+			bad := func() string {
+				return core.Pick(r, "past", "future", "zero", "inverted", "one-second-ago", "va-2^63", "soon", "just-expired")
+			}
 			var ids []uint64
 			nbad := 2 + r.Intn(3)
 			for j := 0; j < nbad; j++ {
